@@ -43,6 +43,10 @@ def build(case):
     rng = random.Random(case["seed"])
     fmt = case["fmt"]
     pal = shifted_palette(case["pal"]) if case.get("pal") is not None else M.rand_palette(rng)
+    if case.get("flatpal") is not None:
+        # degenerate but legal palettes: every slot the same colour, the first four the same, all zero, two colours only
+        fp = case["flatpal"]
+        pal = {"all": [pal[3]] * 16, "first4": [pal[5]] * 4 + pal[4:], "zero": [0] * 16, "two": [pal[1], pal[2]] * 8, "white": [63] * 16}[fp]
     if case.get("highbits"):
         # bits 6 and 7 of a palette register are don't-care on the hardware: files carry them, the colour is the low six bits
         pal = [v | rng.choice([64, 128, 192]) for v in pal]
@@ -121,7 +125,7 @@ def check_vef(cl, exp):
 
 def run_case(case):
     fmt, data, args, exp, variant = build(case)
-    obs = {"key": "%s|%s|%s" % (variant, case.get("kind"), case.get("pal")), "counters": {"decodes": 1}, "viols": [],
+    obs = {"key": "%s|%s|%s%s" % (variant, case.get("kind"), case.get("pal"), "|" + case["flatpal"] if case.get("flatpal") else ""), "counters": {"decodes": 1}, "viols": [],
            "sets": {"variants": [variant]}}
     res = D.decode(fmt, data, args)
     cl = observe.classify(fmt, res)
@@ -174,6 +178,12 @@ def cases(tier, seed):
     for vt in (0, 1, 3):
         for kind in ("random", "alt"):
             yield c(fmt="vef", vt=vt, kind=kind, highbits=True)
+    for fp in ("all", "first4", "zero", "two", "white"):
+        for vt in (0, 1, 3):
+            yield c(fmt="vef", vt=vt, kind="random", flatpal=fp)
+        yield c(fmt="hrs", w=32, h=4, kind="random", flatpal=fp)
+        yield c(fmt="mge", rgb=(fp != "two"), kind="random", flatpal=fp)
+        yield c(fmt="cm3", two=False, pat=False, kind="random", flatpal=fp)
     for kind in ("random", "alt"):
         yield c(fmt="hrs", w=32, h=4, kind=kind, highbits=True)
         yield c(fmt="mge", rgb=True, kind=kind, highbits=True)
